@@ -174,24 +174,53 @@ def run(ctx):
         opdecls = X.gen_operators(rng, spec)
         top, bottom = rng.random() < 0.35, rng.random() < 0.25
         listed = G.gen_canon(rng, spec, max_items=4, depth=2) + [(b, ()) for b in spec.bases() if rng.random() < 0.7]
-        try:
-            lang, operators = X.build_typed_language(spec, ops, opdecls, canon=listed, include_top=top, include_bottom=bottom)
-        except Exception:  # noqa
-            ctx.count("language_rejected")
-            continue
-        canon = sorted(G.py_to_data(t, ops) for t in lang.canon)
-        if len(canon) > 120:
-            ctx.count("canon_too_large_skipped")
-            continue
-        ctx.setup(spec.sexp(), "ok T")
-        ctx.setup("(aliases)", "ok")
-        ctx.setup(X.operators_line(opdecls), "ok")
-        ctx.setup(f"(canon {'T' if top else 'F'} {'T' if bottom else 'F'} " + " ".join(G.ty_sexp(t) for t in listed) + ")", "ok")
-        ninputs = rng.randint(0, 2)
-        trees = X.gen_typed_trees(rng, lang, spec, opdecls, ninputs, rounds=3, per_round=14 if ctx.tier == "quick" else 30)
-        for tree in trees:
-            bits = GG.gen_bits(rng)
-            one_case(ctx, li, spec, ops, opdecls, lang, canon, listed, top, bottom, tree, ninputs, bits)
+        language_cases(ctx, li, spec, ops, opdecls, listed, top, bottom, 14 if ctx.tier == "quick" else 30)
+    lookthrough_family(ctx)
+
+
+def language_cases(ctx, li, spec, ops, opdecls, listed, top, bottom, per_round):
+    rng = ctx.rng
+    try:
+        lang, operators = X.build_typed_language(spec, ops, opdecls, canon=listed, include_top=top, include_bottom=bottom)
+    except Exception:  # noqa
+        ctx.count("language_rejected")
+        return
+    canon = sorted(G.py_to_data(t, ops) for t in lang.canon)
+    if len(canon) > 120:
+        ctx.count("canon_too_large_skipped")
+        return
+    ctx.setup(spec.sexp(), "ok T")
+    ctx.setup("(aliases)", "ok")
+    ctx.setup(X.operators_line(opdecls), "ok")
+    ctx.setup(f"(canon {'T' if top else 'F'} {'T' if bottom else 'F'} " + " ".join(G.ty_sexp(t) for t in listed) + ")", "ok")
+    ninputs = rng.randint(0, 2)
+    trees = X.gen_typed_trees(rng, lang, spec, opdecls, ninputs, rounds=3, per_round=per_round)
+    for tree in trees:
+        bits = GG.gen_bits(rng)
+        one_case(ctx, li, spec, ops, opdecls, lang, canon, listed, top, bottom, tree, ninputs, bits)
+
+
+def lookthrough_family(ctx):
+    """canons in which canonical supertypes are reachable only THROUGH non-canonical types (contravariant / mixed-variance operators over a
+    three-level chain, Top and/or Bottom canonical): the supertype annotations of nodes carrying such types"""
+    rng = ctx.rng
+    decls = list(G.BUILTIN_DECLS) + [("A", [], None), ("B", [], 5), ("C", [], 6), ("D", [], None), ("E", [], 8),
+        ("K", [False], None), ("M", [False, True], None), ("F", [True], None)]
+    spec = G.LangSpec(decls)
+    ops = spec.build()
+    A, B, C, D, E = [(5, ()), (6, ()), (7, ()), (8, ()), (9, ())]
+    fixed = [([(11, (D, A))], True, False), ([(11, (D, D))], True, False), ([(11, (A, A))], True, False), ([(11, (B, C))], True, True),
+             ([(11, (A, A))], False, True), ([(10, (D,))], True, True), ([(11, (E, A))], True, True), ([(11, (D, E)), (12, (B,))], True, True),
+             ([(10, (B,)), D], False, True), ([(11, (D, D))], True, True)]
+    n = 5 if ctx.tier == "quick" else len(fixed)
+    for k, (listed, top, bottom) in enumerate(fixed[:3] + rng.sample(fixed[3:], n - 3)):
+        # operators that produce and consume the listed types, plus random ones
+        x = ('v', 0)
+        opdecls = [(X.OPNAMES[i], {"nvars": 0, "nwild": 0, "body": X.fun(rng.choice([A, B, C, D, E]), t), "constraints": []}) for i, t in enumerate(listed)]
+        opdecls.append((X.OPNAMES[len(opdecls)], {"nvars": 1, "nwild": 0, "body": X.fun(x, x), "constraints": []}))
+        opdecls.append((X.OPNAMES[len(opdecls)], {"nvars": 0, "nwild": 0, "body": X.fun(listed[0], rng.choice([A, D])), "constraints": []}))
+        ctx.count("lookthrough_languages")
+        language_cases(ctx, ("lt", k), spec, ops, opdecls, listed + [A, B, C, D, E], top, bottom, 8 if ctx.tier == "quick" else 20)
 
 
 def one_case(ctx, li, spec, ops, opdecls, lang, canon, listed, top, bottom, tree, ninputs, bits):
@@ -215,14 +244,15 @@ def one_case(ctx, li, spec, ops, opdecls, lang, canon, listed, top, bottom, tree
         gtext = "E:X:" + type(exn).__name__
         rec = None
     case = {"lang": spec.to_json(), "text": text, "inputs": ninputs, "bits": bits, "listed": listed, "top": top, "bottom": bottom}
-    ctx.case(f"(gexpr {bits} {ninputs} {G.str_sexp(text)})", gtext, case, nontrivial=X.napps(tree) >= 2, key=(li, bits, text), cmp=GG.iso)
+    line = f"(gexpr {bits} {ninputs} {G.str_sexp(text)})"
+    ctx.case(line, gtext, case, nontrivial=X.napps(tree) >= 2, key=(li, bits, text), cmp=GG.iso)
     ctx.count("graph_" + ("ok" if gtext.startswith("ok") else gtext))
     if rec is None:
         if gtext.startswith("E:X:"):
             ctx.fail(f"add_expr of `{text}` raised {gtext}", {"check": "add_expr-error", "exception": gtext}, dict(case, opdecls=[[n, s] for n, s in opdecls]))
         return
     for desc, feat in check_graph(g, root, e, rec.pairs, bits, lang, spec, ops, canon):
-        ctx.fail(f"`{text}` (switches {bits}): {desc}", feat, dict(case, opdecls=[[n, s] for n, s in opdecls]))
+        ctx.fail(f"`{text}` (switches {bits}): {desc}", feat, dict(case, opdecls=[[n, s] for n, s in opdecls]), lines=[line])
 
 
 def replay(ctx, payload):
